@@ -42,6 +42,7 @@ func run(r *vk.Run) {
 	core(r)
 	servers(r)
 	models(r)
+	concurrentSubscribe(r)
 	r.Require("core-ops", 1000)
 	r.Require("server-calls", 1000)
 	r.Require("model-ops", 500)
